@@ -344,6 +344,7 @@ func runBatch(p Prop, seed uint64, tier string, workers int, capSeconds int) *ch
 		fatalInfra("tmp dir: %v", err)
 	}
 	defer os.RemoveAll(dir)
+	defer os.RemoveAll(filepath.Join(verifRoot(), ".build", "baselines-"+filepath.Base(dir)))
 	if workers > n {
 		workers = n
 	}
@@ -370,7 +371,7 @@ func runBatch(p Prop, seed uint64, tier string, workers int, capSeconds int) *ch
 				}
 				cmd := exec.Command(selfExe(), args...)
 				cmd.Stderr = os.Stderr
-				cmd.Env = append(os.Environ(), "GOMAXPROCS=2")
+				cmd.Env = append(os.Environ(), "GOMAXPROCS=2", "FITSIM_RUN_ID="+filepath.Base(dir))
 				if err := cmd.Start(); err != nil {
 					return err
 				}
